@@ -100,6 +100,7 @@ fn streams() -> Vec<Stream> {
     vec![
         Stream { name: "fixed-exhaustive-ops", count: (N_BASES * SEQS_PER_BASE, N_BASES * SEQS_PER_BASE), exhaustive: true, run: fixed_exhaustive },
         Stream { name: "fixed-random", count: (250_000, 5_000_000), exhaustive: false, run: fixed_random },
+        Stream { name: "fixed-lenient-structure", count: (60_000, 1_500_000), exhaustive: false, run: fixed_lenient },
         Stream { name: "datum-exhaustive-variants", count: (N_DATUM_VARIANTS, N_DATUM_VARIANTS), exhaustive: true, run: datum_exhaustive },
         Stream { name: "datum-random", count: (400_000, 8_000_000), exhaustive: false, run: datum_random },
         Stream { name: "datum-embedded", count: (200_000, 4_000_000), exhaustive: false, run: datum_embedded },
@@ -1199,12 +1200,73 @@ fn load_alt(ctx: &mut Ctx, which: u64, exp: &Exp, x: &[u8], prefix: &str) -> Opt
 // ------------------------------------------------------------------------------------------------ stream: random transactions
 
 fn fixed_random(ctx: &mut Ctx, r: &mut Rng, _i: u64) {
-    with_st(ctx, |ctx, st| fixed_case(ctx, r, st));
+    with_st(ctx, |ctx, st| fixed_case(ctx, r, st, false));
+}
+
+/// Inputs that are one well-formed CBOR item but NOT a transaction the CDDL admits in one of its parts (an
+/// auxiliary-data array with a third element, an unknown key in the body / witness set / tagged auxiliary data).
+/// The loader may refuse them; what it ACCEPTS it has promised to preserve: the same byte-for-byte judgement
+/// as for every other accepted input.
+fn fixed_lenient(ctx: &mut Ctx, r: &mut Rng, _i: u64) {
+    with_st(ctx, |ctx, st| fixed_case(ctx, r, st, true));
+}
+
+fn structural_tweak(r: &mut Rng, root: &mut Item) -> Option<&'static str> {
+    let xs = match &mut root.v {
+        V::A(xs) if xs.len() == 4 => xs,
+        _ => return None,
+    };
+    match r.below(6) {
+        0 | 1 => {
+            // auxiliary data in the [metadata, native scripts] form with more elements than the form has
+            let extra = match r.below(3) {
+                0 => Item::u(0),
+                1 => Item::null(),
+                _ => Item::arr(vec![]),
+            };
+            let mut elems = match &xs[3].v {
+                V::A(e) if e.len() == 2 => e.clone(),
+                _ => vec![Item::map(vec![(Item::u(1), Item::u(2))]), Item::arr(vec![])],
+            };
+            elems.push(extra);
+            if r.bool() {
+                elems.push(Item::u(7));
+            }
+            xs[3] = Item::arr(elems);
+            Some("aux-array-overlong")
+        }
+        2 => {
+            let md = Item::map(vec![(Item::u(1), Item::u(2))]);
+            xs[3] = Item::tag(259, Item::map(vec![(Item::u(0), md), (Item::u(5 + r.below(3)), Item::u(0))]));
+            Some("aux-tagged-unknown-key")
+        }
+        3 => {
+            let k = 23 + r.below(3);
+            if let Some(e) = map_entries_mut(&mut xs[0]) {
+                e.push((Item::u(k), Item::u(0)));
+                return Some("body-unknown-key");
+            }
+            None
+        }
+        4 => {
+            let k = 8 + r.below(3);
+            if let Some(e) = map_entries_mut(&mut xs[1]) {
+                e.push((Item::u(k), Item::arr(vec![])));
+                return Some("witness-unknown-key");
+            }
+            None
+        }
+        _ => {
+            // the one-element array form does not exist either
+            xs[3] = Item::arr(vec![Item::map(vec![(Item::u(1), Item::u(2))])]);
+            Some("aux-array-short")
+        }
+    }
 }
 
 const TX_KINDS: [u32; N_TX_KINDS as usize] = [K_INDEF_ARR, K_INDEF_MAP, K_WIDE_INT, K_WIDE_LEN, K_WIDE_TAG, K_CHUNK, K_UNTAG, K_RETAG, K_PERM_WITS, K_PERM_BODY, K_DUP_VKEY, K_DUP_INPUT, K_EMPTY_FIELD, K_LEGACY3, K_INVALID, K_DUP_BOOT, K_DUP_KEY];
 
-fn fixed_case(ctx: &mut Ctx, r: &mut Rng, st: &St) {
+fn fixed_case(ctx: &mut Ctx, r: &mut Rng, st: &St, structural: bool) {
     let canon_bytes = {
         let mut g = G::new(r, 2, 3);
         match guard(|| g.transaction(false).to_bytes()) {
@@ -1231,6 +1293,11 @@ fn fixed_case(ctx: &mut Ctx, r: &mut Rng, st: &St) {
         mutate_tx(&mut m, &mut root);
         m.applied
     };
+    let tweak = if structural { structural_tweak(r, &mut root) } else { None };
+    if structural && tweak.is_none() {
+        ctx.bucket("skipped.no-structural-tweak-applicable");
+        return;
+    }
     let x = cbor::to_vec(&root);
     let exp = match view_input(&x) {
         Some(e) => e,
@@ -1241,8 +1308,17 @@ fn fixed_case(ctx: &mut Ctx, r: &mut Rng, st: &St) {
     };
     ctx.eval();
     let ft = match guard(|| FixedTransaction::from_bytes(x.clone())) {
-        Ok(Ok(f)) => f,
+        Ok(Ok(f)) => {
+            if let Some(t) = tweak {
+                ctx.bucket(&format!("lenient.accepted.{}", t));
+            }
+            f
+        }
         Ok(Err(_)) => {
+            if let Some(t) = tweak {
+                ctx.bucket(&format!("lenient.rejected.{}", t));
+                return;
+            }
             ctx.bucket("fixed.rejected");
             if applied == 0 {
                 ctx.bucket("fixed.rejected.unmutated");
